@@ -20,6 +20,18 @@ pub broadcast proof fn axiom_f32_div_fn() ensures #[trigger] <f32 as DivSpec<f32
 // ASSUME(A-F2): the comparison operators of f32 are the ones `partial_cmp` induces
 pub proof fn axiom_f32_cmp_fn() ensures <f32 as PartialOrdSpec>::obeys_partial_cmp_spec() { admit(); }
 
+// ASSUME(A-F2): `==` on f32 is the function `eq_spec`, and IEEE equality implies `>=`
+pub proof fn axiom_f32_eq_fn() ensures <f32 as PartialEqSpec>::obeys_eq_spec() { admit(); }
+// ASSUME(A-F2)
+pub proof fn axiom_f32_eq_implies_ge(a: f32, b: f32)
+    ensures a.eq_spec(&b) ==> (a.partial_cmp_spec(&b) == Some(core::cmp::Ordering::Equal))
+{ admit(); }
+
+// ASSUME(A-F2): comparability of two floats is symmetric
+pub proof fn axiom_f32_cmp_dual(a: f32, b: f32)
+    ensures a.partial_cmp_spec(&b) is Some <==> b.partial_cmp_spec(&a) is Some
+{ admit(); }
+
 pub open spec fn fadd(a: f32, b: f32) -> f32 { a.add_spec(b) }
 pub open spec fn fsub(a: f32, b: f32) -> f32 { a.sub_spec(b) }
 pub open spec fn fmul(a: f32, b: f32) -> f32 { a.mul_spec(b) }
